@@ -34,4 +34,9 @@ CHECKS['C09'] = dict(
     note='Trusted: Coq kernel, extraction, driver, harness. Node-level origination (heartbeats, stream requests) is exercised by the scenario checks of C11/C16.',
     technique='Coq proof (induction over write histories) + extracted-model differential')
 
+CHECKS['C05'] = dict(
+    text='Kernel-checked proofs on the reader model, for every stream and every segmentation: one simulation theorem shows the reader over the chunked bufio model equals the reader over a flat item sequence (so results cannot depend on the splitting); on the flat semantics: no panic, every non-transport-error call consumes at least one item, a stream of n items is exhausted in at most n+1 calls ending on EOF, the spec bytes of any well-formed frame are parsed to exactly that frame leaving what followed, and valid frames separated by non-marker junk are all delivered in order. Tied to frame.Reader over the real bufio.Reader by a bounded-exhaustive differential (small alphabet x all segmentations x fault at every offset) comparing results and per-call consumption.',
+    note='bufio.Reader is modelled (fill/Peek/Discard/Read/ReadByte as used by pkg/frame); transports that return data together with an error, or empty reads, are outside the model. Trusted: Coq kernel, extraction, driver, harness.',
+    technique='Coq proof (simulation chunked->flat stream, induction on fuel/stream length) + bounded-exhaustive extracted-model differential')
+
 NOT_APPLICABLE = [{'property_id': p, 'reason': PENDING} for p in ALL if p not in CHECKS]
